@@ -14,6 +14,7 @@ pub mod c20tok;
 pub mod psetdesc;
 pub mod c08;
 pub mod c14;
+pub mod c09;
 
 pub fn run(prop: &str, rng: &mut R, out: &mut Out, extra: &[String]) -> bool {
     let _ = extra;
@@ -31,6 +32,7 @@ pub fn run(prop: &str, rng: &mut R, out: &mut Out, extra: &[String]) -> bool {
         "C20" => c20::run(rng, out),
         "C08" => c08::run(rng, out),
         "C14" => c14::run(rng, out),
+        "C09" => c09::run(rng, out),
         _ => return false,
     }
     true
